@@ -58,6 +58,10 @@ def conformance(item):
     # ---- E1-E6 ecdsa
     for v in (0, n, n + 1, 2 ** 256 - 1):
         chk("E1.from_string_rejects_out_of_range", raises(SigningKey.from_string, v.to_bytes(32, "big"), curve=SECP256k1))
+    for v in (0, -1, n, n + 1, 2 ** 256):
+        chk("E1.from_secret_exponent_rejects_out_of_range", raises(SigningKey.from_secret_exponent, v, curve=SECP256k1))
+    for v in (1, n - 1):
+        chk("E1.from_secret_exponent_is_from_string", SigningKey.from_secret_exponent(v, curve=SECP256k1).to_string() == v.to_bytes(32, "big"))
     for L in (0, 1, 31, 33, 64):
         chk("E1.from_string_rejects_wrong_length", raises(SigningKey.from_string, b"\x01" * L, curve=SECP256k1))
     for k in scalars:
